@@ -147,7 +147,7 @@ pub fn rand_i64(r: &mut Rng) -> i64 {
     }
 }
 fn garbage(r: &mut Rng) -> Vec<u8> {
-    let n = *r.pick(&[0usize, 0, 1, 3, 9]);
+    let n = *r.pick(&[0usize, 0, 1, 3, 6, 9]);
     r.bytes(n)
 }
 
